@@ -32,7 +32,7 @@ RULE = ("each run draws a transport mode (plain / stdlib TLS / PyOpenSSL TLS), a
         "twice - unsegmented baseline and segmented variant - and compared. distinct = distinct "
         "time-stripped delivery signatures of the variant; non-trivial = the variant delivered the "
         "client bytes in >= 2 reads")
-PROBES = ["client_closes_right_after_upload", "cut_inside_multibyte_character", "data_after_dispatch", "cut_inside_crlf", "cut_at_titan_size", "handshake_coalesced",
+PROBES = ["upload_handler_raised", "valid_request_behind_invalid_line", "client_closes_right_after_upload", "cut_inside_multibyte_character", "data_after_dispatch", "cut_inside_crlf", "cut_at_titan_size", "handshake_coalesced",
           "titan_dispatch", "late_extra_reads", "real_upload_handler",
           "client_closes_right_after_request"]
 COMPONENTS = {
@@ -98,6 +98,11 @@ def gen_request(ch):
                 b"titan://srv.sim/up/a;mime=text/plain\r\n", b"titan://srv.sim/up/a;size=abc\r\n"][v]
         if ch.chance("invgarb", 0.5):
             extra = ch.bytes_("garbage", ch.biased_size("glen", 1, 600, [1, 2]))
+            if ch.chance("invpipelined", 0.5):
+                # ... a complete, valid request: the connection has had its one request
+                extra = ch.pick("invsecond", [f"gemini://{HOST}/second".encode() + b"\r\n",
+                                              f"titan://{HOST}/up/second.txt;size=3;mime=text/plain".encode()
+                                              + b"\r\nabc"])
     else:              # around the 1024 limit
         n = ch.pick("lim", [1000, 1020, 1021, 1022, 1023, 1024, 1030, 1500])
         base = f"gemini://{HOST}/".encode()
@@ -134,7 +139,11 @@ def run_case(ch, cfg, variant: bool, scratch):
             c = getattr(req, "content", b"")
             return GeminiResponse(status=20, meta="text/plain",
                                   body="stored " + hashlib.sha256(c).hexdigest()[:12])
-        upspy = sw.SpyUpload(sim, {"kind": "ret", "delay": cfg["udelay"], "fn": u_fn})
+        plan = {"kind": "ret", "delay": cfg["udelay"], "fn": u_fn}
+        if cfg.get("uraise"):
+            # a handler that fails: still one invocation per connection, and a 40
+            plan = {"kind": "raise", "delay": cfg["udelay"], "exc": OSError(5, "Input/output error")}
+        upspy = sw.SpyUpload(sim, plan)
         up = upspy
     elif cfg["upload"] == "real":
         real = FileUploadHandler(updir, max_size=5000, auth_tokens=None, enable_delete=True)
@@ -290,6 +299,7 @@ def run_one(ch):
         "udelay": ch.pick("udelay", [0.0, 0.3, 31.0], [4, 4, 1]),
         "slowmw": ch.pick("slowmw", [None, 0.0, 0.2], [6, 1, 2]),
         "pieces": gen_pieces,
+        "uraise": ch.chance("uraise", 0.12),
     }
     # a client that closes its side right after the request: only where the outcome
     # cannot depend on timing (synchronous handler, no chain, Gemini request)
@@ -310,6 +320,10 @@ def run_one(ch):
     _FLAGS.clear()
     base = run_case(ch, cfg, False, fresh_dir("c07a"))
     var = run_case(ch, cfg, True, fresh_dir("c07b"))
+    if cfg["uraise"] and cfg["upload"] == "spy" and var["n_u"]:
+        res.stats["upload_handler_raised"] += 1
+    if kind == 6 and extra[:9] in (b"gemini://", b"titan://s"):
+        res.stats["valid_request_behind_invalid_line"] += 1
     if _FLAGS.pop("mb_cut", False):
         res.stats["cut_inside_multibyte_character"] += 1
 
